@@ -4,46 +4,191 @@ grades: P = proved by Verus on the extracted real text; K = complete Kani proof 
 B = bounded stand-in on the real function (never counted as proved); A = assumed contract.
 """
 
-A_STD = "A-std: vstd's specifications of BTreeMap/HashMap/HashSet/Vec/Option/String and the added std specs listed in units/*.vrs (assume_specification / external_body items)"
-A_KEY = "A-key: String and ChitchatId obey the ordering / hashing key model required by vstd's map specs (keys_ok, obeys_key_model)"
-A_DERIVE = "A-derive: derived PartialEq/PartialOrd on Heartbeat compare the single field (cross-checked by a Kani harness on the real type)"
-A_SVV = "A-svv: contract of NodeState::set_versioned_value is assumed in Verus (BTreeMap Entry API unspecified in vstd); the same contract is checked on the real function by the bounded native driver svv_contract"
+A_STD = "A-std: vstd's specifications of BTreeMap/HashMap/HashSet/Vec/Option/String plus the std facts added in units/*.vrs as external_body items (ToString is a function of its argument; R13 adapters for Vec::extend / Vec::drain; u8/u16 little-endian codecs)"
+A_KEY = "A-key: String and ChitchatId obey the ordering / hashing key model required by vstd's map specs (keys_ok, ids_ok, obeys_key_model), and a &str looks up the String with the same content (str_axioms)"
+A_DERIVE = "A-derive: derived PartialEq/PartialOrd on Heartbeat compare the single field; derived Default of DeltaBuilder is the empty builder"
+A_SVV = "A-svv: the contract of NodeState::set_versioned_value is assumed in Verus (BTreeMap Entry API is unspecified in vstd); the same contract is checked on the real function by the bounded native driver svv_contract"
 A_TERM = "A-term: termination of loops desugared by R6 is not proved (exec_allows_no_decreases_clause)"
-A_INT = "machine integers: NodeState::max_version < u64::MAX is a stated precondition of the local write operations"
-A_CLOCK = "A-clock: tokio Instant is opaque; only Instant::now() and copies are used in verified code"
-A_TEST_CFG = "native drivers compile the crate with cfg(test) (deterministic RNG in SortedStaleNodes::into_iter, tokio paused clock)"
+A_INT = "machine integers: max_version < u64::MAX is a stated precondition of the local write operations; no delta op is 2 GiB long (usize arithmetic in the size bound)"
+A_CLOCK = "A-clock: tokio Instant is opaque; verified code only calls Instant::now() and copies the value"
+A_ZSTD = "A-zstd: zstd::bulk::compress_to_buffer fails or returns a length <= the destination length and does not change the destination length; nothing is assumed about the bytes"
+A_TEST_CFG = "native drivers compile the crate with cfg(test) (deterministic RNG in SortedStaleNodes::into_iter, tokio test-util) and RUSTFLAGS --cfg chitchat_verif"
+A_DECODE = "A-decode: deserialize_stream (block reader) is assumed to return some op sequence or an error; its body is exercised by the bounded decode drivers only"
+TB = ["verus 0.2026.09.13 (Z3 back end)", "vx/extract.py rewrite rules R1-R14 (vx/RULES.md)", "rustc / cargo for the native and Kani routes"]
 
-U1_CORE = ["NodeState::check_delta_status", "NodeState::reset_node", "NodeState::apply_delta", "NodeState::new"]
-U1_LEMMAS_C14 = ["lemma_agree", "lemma_sender_offers_iff_ahead", "lemma_admitted_strictly_advances"]
+U1 = "u1_state"
+U2 = "u2_wire"
+
+N_SVV = {"test": "verif_svv_contract", "pairs": ["NodeState::apply_delta", "NodeState::set", "NodeState::set_with_version", "NodeState::set_with_ttl"]}
+N_C04 = {"test": "verif_c04_scope", "pairs": ["NodeState::check_delta_status", "NodeState::apply_delta", "NodeState::reset_node", "ClusterState::apply_delta"]}
+N_C14 = {"test": "verif_c14_scope", "pairs": ["sender_decision", "NodeState::check_delta_status", "NodeState::apply_delta", "staleness_score"]}
+N_C06 = {"test": "verif_c06_model", "pairs": ["NodeState::set", "NodeState::set_with_ttl", "NodeState::delete", "NodeState::delete_after_ttl", "NodeState::get", "NodeState::contains_key"]}
+N_C09 = {"test": "verif_c09_op_streams", "pairs": ["DeltaBuilder::apply_op", "delta_deserialize", "NodeState::apply_delta", "ClusterState::apply_delta"]}
+N_C18 = {"test": "verif_c18_catchup", "pairs": ["Chitchat::reset_node_state_if_update"]}
+N_C07S = {"test": "verif_c07_reply_size", "pairs": ["Chitchat::process_message", "DeltaSerializer::try_add_op", "CompressedStreamWriter::append", "CompressedStreamWriter::serialized_len_upperbound_after", "DeltaSerializer::finish"]}
+N_KF1 = {"test": "verif_c02_kf1_history", "pairs": []}
+N_C15 = {"test": "verif_c15_dispatch", "pairs": []}
 
 PROPS = {
     "C04": {
         "level": "proof",
-        "title": "Versions and replication frontiers only move forward",
-        "verus": [{"unit": "u1_state", "fns": U1_CORE + ["NodeState::monotonic_property", "NodeState::max_version",
-                                                         "NodeState::last_gc_version", "lemma_admitted_strictly_advances"]}],
-        "native": [],
+        "verus": [{"unit": U1, "fns": ["NodeState::check_delta_status", "NodeState::reset_node", "NodeState::apply_delta", "NodeState::new",
+                                       "NodeState::monotonic_property", "NodeState::max_version", "NodeState::last_gc_version",
+                                       "NodeState::set", "NodeState::set_with_ttl", "NodeState::delete", "NodeState::delete_after_ttl",
+                                       "NodeState::set_with_version", "ClusterState::apply_delta", "ClusterState::node_state_mut",
+                                       "lemma_admitted_strictly_advances"]},
+                  {"unit": U2, "fns": ["DeltaBuilder::apply_op", "DeltaBuilder::flush", "DeltaBuilder::finish", "delta_deserialize"]}],
+        "native": [N_SVV, N_C04],
         "kani": [],
-        "assumptions": [A_STD, A_KEY, A_SVV, A_TERM, A_INT, A_CLOCK],
-        "trusted_base": ["verus 0.2026.09.13 + z3", "vx/extract.py rewrite rules R1-R14 (vx/RULES.md)", "rustc"],
+        "assumptions": [A_STD, A_KEY, A_SVV, A_TERM, A_INT, A_CLOCK, A_DECODE, A_TEST_CFG],
+        "level_text": "Verus discharges, on the function text copied from /repo at every run, that (i) check_delta_status is exactly the admission rule, (ii) apply_delta under a well-formed delta never reaches its assert!, keeps (GC watermark, max version) lexicographically monotone, changes nothing on Reject, never lowers a stored version without a reset and only resets with a strictly higher watermark, (iii) ClusterState::apply_delta's assert! is unreachable and untouched members are framed, (iv) every effective local write gets version max+1 and a same-value re-set changes nothing, (v) the decoder only produces well-formed deltas. All for every input and every delta length (loop invariants), i.e. for all (copy, delta) pairs whether or not an honest sender produced them.",
+        "level_note": "set_versioned_value's contract is assumed (Entry API) and checked on the real function by the bounded driver svv_contract; u64 overflow of versions is a stated precondition; termination of the two desugared for-loops is not proved; NodeState::set_max_version / set_last_gc_version are public setters outside the property. The paired bounded driver c04_scope (versions/watermarks 0..6, <=3 keys) is the counterexample source and is never counted as proved.",
+        "technique": "Verus contracts (requires/ensures/loop invariants) on extracted real functions; bounded native stand-in for the Entry-API callee",
         "explanation": "",
         "design_ref": "DESIGN.md §7 C04",
     },
     "C14": {
         "level": "proof",
-        "title": "Sender and receiver agree on reset versus incremental update",
-        "verus": [{"unit": "u1_state", "fns": ["NodeState::check_delta_status", "NodeState::apply_delta"] + U1_LEMMAS_C14}],
-        "native": [],
+        "verus": [{"unit": U1, "fns": ["sender_decision", "staleness_score", "NodeState::check_delta_status", "NodeState::apply_delta",
+                                       "lemma_agree", "lemma_sender_offers_iff_ahead", "lemma_admitted_strictly_advances"]},
+                  {"unit": U2, "fns": ["DeltaSerializer::try_add_node", "DeltaSerializer::try_add_kv", "DeltaSerializer::try_set_max_version"]}],
+        "native": [N_C14],
         "kani": [],
-        "assumptions": [A_STD, A_KEY, A_SVV, A_TERM],
-        "trusted_base": ["verus 0.2026.09.13 + z3", "vx/extract.py rewrite rules R1-R14 (vx/RULES.md)", "rustc"],
+        "assumptions": [A_STD, A_KEY, A_SVV, A_TERM, A_TEST_CFG],
+        "level_text": "The sender-side decision (statements of compute_partial_delta_respecting_mtu, sliced mechanically) and the receiver-side admission are each proved equal to a spec function written from the property text, and lemma_agree relates the two for all u64 frontiers: a delta whose header the serializer can produce from the receiver's own digest is never Reject; it is ApplyAfterReset exactly when the receiver's max version and watermark are both below the sender's watermark, and then starts from 0; the sender offers something iff it is ahead; an admitted delta strictly raises (watermark, max version).",
+        "level_note": "The map lookups, the stale-node ordering and the outer loops of compute_partial_delta_respecting_mtu are outside Verus' reach (iterator adapters); the composition sender->wire->receiver on the real functions is checked by the bounded driver c14_scope over the property's stated exhaustive scope (frontiers 0..7, <=3 keys of every status, every truncation point) and is labelled bounded.",
+        "technique": "Verus contracts on a mechanically sliced fragment + lemma over both contracts; bounded native composition check",
         "explanation": "",
         "design_ref": "DESIGN.md §7 C14",
+    },
+    "C20": {
+        "level": "proof",
+        "verus": [{"unit": U1, "fns": ["NodeState::apply_delta", "NodeState::reset_node", "ClusterState::apply_delta"]}],
+        "native": [{"test": "verif_c20_callback", "pairs": ["ClusterState::apply_delta"]}],
+        "kani": [],
+        "assumptions": [A_STD, A_KEY, A_SVV, A_TERM, A_TEST_CFG],
+        "level_text": "ClusterState::apply_delta is proved to return true exactly when some member delta whose member is known was admitted as ApplyAfterReset against the entry state (loop invariant over the accumulated flag), and NodeState::apply_delta reports ApplyAfterReset exactly on the path that wipes the copy. So the flag handed to the callback site is raised iff a copy was reset, however many copies the message reset.",
+        "level_note": "Chitchat::process_delta (8 lines, calls a Box<dyn Fn()>) is not within Verus' reach (dyn Fn); 'exactly once per message' at that call site is checked by the bounded driver c20_callback with a counting callback over 0/1/2 resets per message and newly created members.",
+        "technique": "Verus loop invariant on the extracted ClusterState::apply_delta; bounded native check of the 8-line call site",
+        "explanation": "",
+        "design_ref": "DESIGN.md §7 C20",
+    },
+    "C05": {
+        "level": "proof",
+        "verus": [{"unit": U1, "fns": ["lemma_owner_rejects", "lemma_sender_offers_iff_ahead", "sender_decision", "NodeState::check_delta_status",
+                                       "NodeState::apply_delta", "ClusterState::apply_delta"]}],
+        "native": [{"test": "verif_c05_owner", "pairs": ["Chitchat::report_heartbeat"]}],
+        "kani": [],
+        "assumptions": [A_STD, A_KEY, A_SVV, A_TERM, A_TEST_CFG],
+        "level_text": "Per-message induction step, proved: a delta that is not ahead of a copy (max version and watermark <= the copy's max version) is Reject (lemma_owner_rejects), and a rejected delta leaves the whole copy untouched (apply_delta / ClusterState::apply_delta Reject clauses); a sender whose copy is not ahead of the digest offers nothing.",
+        "level_note": "Premise not machine-checked here: every copy's max version and watermark are <= the owner's max version (C03's frontier clause; one incarnation per ChitchatId is the property's own assumption). The self-heartbeat guard in Chitchat::report_heartbeat is covered by the bounded driver c05_owner (all message kinds carrying the owner's id, stale/duplicated).",
+        "technique": "Verus lemma over the admission contract + frame clauses; bounded native check of the glue",
+        "explanation": "",
+        "design_ref": "DESIGN.md §7 C05",
+    },
+    "C03": {
+        "level": "proof",
+        "verus": [{"unit": U1, "fns": ["NodeState::apply_delta", "NodeState::try_set_heartbeat", "ClusterState::apply_delta"]},
+                  {"unit": U2, "fns": ["DeltaBuilder::apply_op", "DeltaBuilder::flush", "DeltaSerializer::try_add_kv", "DeltaSerializer::try_add_node",
+                                       "DeltaSerializer::try_set_max_version", "DeltaSerializer::try_add_op", "DeletionStatusMutation::from"]}],
+        "native": [N_C14],
+        "kani": [],
+        "assumptions": [A_STD, A_KEY, A_SVV, A_TERM, A_TEST_CFG],
+        "level_text": "Induction step over the transport of entries, proved: try_add_kv copies key, value, version and kind of status verbatim into the current member's op; the decoder appends a key-value to the current member only, never accepts an op before a member header or a duplicate member; apply_delta's result contains only old entries or verbatim copies of delta entries and its max version is the old one or the delta's; ClusterState::apply_delta touches only the state with the delta's id; try_set_heartbeat stores the old value or the argument and never decreases.",
+        "level_note": "That a delta is a subset of the sender's entries with max version <= the sender's (the contract of compute_partial_delta_respecting_mtu's loops) is checked by the bounded driver c14_scope; wire transport of ops is C08. Lifting the step to all interleavings is the argument 'every mutator of a copy is one of the contracted functions' (fields are private) and is not an obligation.",
+        "technique": "Verus contracts on serializer, decoder state machine and apply_delta (verbatim-copy postconditions)",
+        "explanation": "",
+        "design_ref": "DESIGN.md §7 C03",
+    },
+    "C02": {
+        "level": "other",
+        "verus": [{"unit": U1, "fns": ["NodeState::apply_delta", "NodeState::reset_node", "NodeState::check_delta_status"]}],
+        "native": [N_KF1, N_C14],
+        "kani": [],
+        "assumptions": [A_STD, A_KEY, A_SVV, A_TERM, A_TEST_CFG],
+        "level_text": "Only the local lemmas are decided: a non-reset application inserts only entries with version > the copy's previous max version, a tombstone/TTL entry at or below the resulting watermark is never inserted, a stored version never decreases without a reset, a reset wipes everything and strictly raises the watermark. Exactness of a copy w.r.t. the owner's history across resets is a relation between several nodes' histories that no per-call contract expresses; it is FALSE on the real code (known finding KF-1), which this check replays on every run.",
+        "level_note": "Cross-node exactness is not decided by this technique. KF-1 (truncated reset + stale relay resurrects a deleted key) is a genuine protocol-level defect with no small safe repair; it is listed in known_findings.json and reported as KNOWN-FINDING; any other failed local lemma or bounded check is a new violation.",
+        "technique": "Verus local lemmas (postconditions of apply_delta) + native replay of the known-finding history",
+        "explanation": "Contracts decide the per-call lemmas only; the global invariant 'every copy is exact up to its frontier' needs an inductive invariant over three nodes' histories (sender watermark vs. receiver watermark after an MTU-truncated reset) which is false as stated (KF-1) and whose corrected form is protocol-level.",
+        "design_ref": "DESIGN.md §7 C02",
+    },
+    "C06": {
+        "level": "proof",
+        "verus": [{"unit": U1, "fns": ["NodeState::set", "NodeState::set_with_ttl", "NodeState::delete", "NodeState::delete_after_ttl",
+                                       "NodeState::set_with_version", "NodeState::get", "NodeState::get_versioned", "NodeState::contains_key",
+                                       "VersionedValue::is_deleted", "DeletionStatusMutation::into_status", "NodeState::remove_key_value_internal"]}],
+        "native": [N_SVV, N_C06],
+        "kani": [],
+        "assumptions": [A_STD, A_KEY, A_SVV, A_INT, A_CLOCK, A_TEST_CFG],
+        "level_text": "Point operations are proved as total functions on the abstract view Map<String,(value,version,kind)> + (watermark, max version): set / set_with_ttl (no-op on same value and kind, else version max+1, only that key changes), delete / delete_after_ttl (absent key: no-op; else tombstone / TTL mark at version max+1, nothing else changes), get / contains_key / get_versioned (a Deleted entry is invisible, a TTL entry visible). 'Any sequence' follows because each contract speaks about the whole view and preserves the representation invariant.",
+        "level_note": "Iteration (key_values, iter_prefix, num_key_values: adapter chains, BTreeMap::range) and gc_keys_marked_for_deletion (retain closure capturing &mut) are outside Verus' reach: they are checked on the real functions by the bounded driver c06_model (all operation sequences up to length 5 over prefix-related keys incl. '' and a multi-byte key, clock steps grace-1/grace/grace+1 on tokio's paused clock; seeded sequences of length 40 in the thorough tier) against a reference map. That part is bounded, not proved.",
+        "technique": "Verus contracts over an abstract map view; bounded native model comparison for iteration and GC",
+        "explanation": "",
+        "design_ref": "DESIGN.md §7 C06",
+    },
+    "C09": {
+        "level": "proof",
+        "verus": [{"unit": U2, "fns": ["DeltaBuilder::apply_op", "DeltaBuilder::flush", "DeltaBuilder::finish", "delta_deserialize"]},
+                  {"unit": U1, "fns": ["NodeState::apply_delta", "ClusterState::apply_delta", "NodeState::try_set_heartbeat"]}],
+        "native": [N_C09, N_C15, {"test": "verif_c09_bytes", "pairs": []}],
+        "kani": [],
+        "assumptions": [A_STD, A_KEY, A_SVV, A_TERM, A_DECODE, A_TEST_CFG],
+        "level_text": "Proved: the decoder state machine (DeltaBuilder::apply_op over any op sequence, loop invariant in Delta::deserialize) only yields deltas whose member deltas have max version >= every key-value version, ascending versions and distinct members; under exactly that well-formedness NodeState::apply_delta and ClusterState::apply_delta contain no reachable assert!/panic for ANY such delta (no honesty assumption) and keep frontier monotonicity.",
+        "level_note": "The byte-level decoders (cursor functions over &mut &[u8], zstd block reader) are not under contract; they are exercised on the real code by bounded drivers: c09_op_streams (all op sequences <= 3, thorough 4, over a 27-op alphabet x 4 receiver frontiers), c09_bytes (truncations / bit flips / random bytes of valid messages) and c15_dispatch (multi-byte keys reaching the listener scan). Bounded, never counted as proved.",
+        "technique": "Verus invariant of the decoder state machine + panic-freedom (assert! as proof obligation) of the application path; bounded native decode drivers",
+        "explanation": "",
+        "design_ref": "DESIGN.md §7 C09",
+    },
+    "C07": {
+        "level": "proof",
+        "verus": [{"unit": U2, "fns": ["CompressedStreamWriter::serialized_len_upperbound_after", "CompressedStreamWriter::append",
+                                       "CompressedStreamWriter::flush_block", "CompressedStreamWriter::finish", "CompressedStreamWriter::with_block_threshold",
+                                       "DeltaSerializer::with_mtu", "DeltaSerializer::try_add_op", "DeltaSerializer::finish",
+                                       "DeltaSerializer::try_add_kv", "DeltaSerializer::try_add_node", "DeltaSerializer::try_set_max_version",
+                                       "DeltaBuilder::apply_op"]}],
+        "native": [N_C07S, {"test": "verif_c07_window", "pairs": []}],
+        "kani": [],
+        "assumptions": [A_STD, A_ZSTD, A_INT, A_TEST_CFG],
+        "level_text": "Size arithmetic proved under A-zstd only: the upper bound function equals the documented two-case formula; flush_block consumes exactly min(pending, threshold) bytes and emits 3 + at most that many; append keeps pending <= threshold and, for an item that fits one block, keeps W = |output| + (pending>0 ? 3+pending : 0) + 1 within the announced bound; finish returns at most W bytes; hence an op accepted by try_add_op keeps W <= mtu and DeltaSerializer::finish announces 1 <= serialized_len <= mtu. The asserts at serialize.rs (item length) and delta.rs (mtu >= 100, apply_op is ok) are unreachable under the stated preconditions. Strictly ascending key-value versions per member are an invariant of the builder.",
+        "level_note": "For an op larger than the 16 KiB block the hand-derived bound is short by 3 bytes per extra block if every block is incompressible; the contract states the one-block case and the gap is an unchecked compressibility assumption. The content claim (gap-free ascending window, nothing at or below the start, members scheduled for deletion skipped) is the contract of stale_key_values + the loops of compute_partial_delta_respecting_mtu (iterator chains): bounded driver c07_window; the end-to-end reply length incl. the 4-byte header and own digest: bounded driver c07_reply_size.",
+        "technique": "Verus contracts with a ghost size measure on the extracted stream writer / serializer; bounded native checks for content and end-to-end length",
+        "explanation": "",
+        "design_ref": "DESIGN.md §7 C07",
+    },
+    "C15": {
+        "level": "exploration",
+        "verus": [],
+        "native": [N_C15, N_SVV],
+        "kani": [],
+        "assumptions": [A_TEST_CFG],
+        "level_text": "Bounded only: prefix matching is string reasoning neither verifier does, and the dispatch iterates BTreeMap::range / HashMap::values over boxed closures. The real Listeners::trigger_event is run on all keys of <= 3 symbols over {a, b, é, 🦀} against every single prefix and against prefix sets of size 2..8 with dropped and forever handles, and compared with str::strip_prefix; the trigger condition in set_versioned_value (accepted and not Deleted) is part of svv_contract.",
+        "level_note": "No deductive obligation is generated for C15; it is claimed at exploration level with the property's own exhaustive scope, and the finding F-2 it exposed is repaired (known_findings.json).",
+        "technique": "bounded native enumeration of the real dispatch (no contract within reach: string prefix reasoning, dyn Fn)",
+        "explanation": "",
+        "design_ref": "DESIGN.md §7 C15",
+    },
+    "C18": {
+        "level": "exploration",
+        "verus": [],
+        "native": [N_C18],
+        "kani": [],
+        "assumptions": [A_TEST_CFG],
+        "level_text": "Bounded: the real Chitchat::reset_node_state_if_update over the property's list of copies (absent, empty, mid-reset, ahead, behind, removed-and-remembered) x supplied states (key sets over 3 keys, versions {1,4,7}, every status, max version and watermark consistent or not), checking no panic, (watermark, max version) never lowered, key set replaced with the newer version kept, no re-creation of a collected member, live set untouched.",
+        "level_note": "Until the U5 unit puts the function under a Verus contract this is a bounded check only; the finding F-4 it exposed is repaired.",
+        "technique": "bounded native enumeration of the real catch-up entry point",
+        "explanation": "",
+        "design_ref": "DESIGN.md §7 C18",
     },
 }
 
 NOT_APPLICABLE = {
-    "C01": "liveness over unbounded multi-node histories under fairness; no contract on one call expresses 'within a bounded number of handshakes' (its per-handshake progress sentence is decided under C14)",
+    "C01": "liveness over unbounded multi-node histories under fairness; no contract on one call expresses 'within a bounded number of handshakes' (its per-handshake progress sentence is decided under C14: lemma_agree + lemma_admitted_strictly_advances)",
     "C13": "the whole body of update_nodes_liveness is iterator/closure chains over HashMap/BTreeMap feeding a tokio watch channel: Verus cannot take it and Kani cannot build the collections, so no deductive obligation can be generated; a bounded run alone would be testing, a different family",
     "C19": "async select loop, channels, lock ordering and shutdown liveness: concurrency and whole-history behaviour that neither Verus nor Kani models",
+    "C08": "not yet claimed: codec contracts (U3b) and Kani round-trip harnesses are under construction",
+    "C10": "not yet claimed: failure-detector unit (U4) under construction",
+    "C11": "not yet claimed: failure-detector unit (U4) under construction",
+    "C12": "not yet claimed: failure-detector unit (U4) under construction",
+    "C16": "not yet claimed: lib.rs unit (U5) under construction",
+    "C17": "not yet claimed: peer-selection Kani unit (U6) under construction",
 }
